@@ -1,3 +1,6 @@
 import Model.Time
 import Model.Slots
 import Model.Scan
+import Model.Ledger
+import Model.Calendar
+import Model.Sched
